@@ -3,6 +3,7 @@ package main
 import (
 	"fmt"
 	"sort"
+	"strconv"
 	"strings"
 	"sync"
 	"testing"
@@ -10,6 +11,7 @@ import (
 
 	"github.com/fabiolb/fabio/config"
 	"github.com/fabiolb/fabio/metrics"
+	"github.com/fabiolb/fabio/noroute"
 	"github.com/fabiolb/fabio/registry"
 	"github.com/fabiolb/fabio/registry/consul"
 	"github.com/fabiolb/fabio/route"
@@ -69,6 +71,7 @@ func startPipeline(t *testing.T) *pipeline {
 		registry.Default = be
 		first := make(chan bool)
 		go watchBackend(cfg, metrics.DiscardProvider{}, first)
+		go watchNoRouteHTML(cfg)
 		pipe = p
 	})
 	return pipe
@@ -119,7 +122,7 @@ func (p *pipeline) healthy(w *mWorld, in *fakeconsul.Instance) bool {
 	return true
 }
 
-type triple struct{ svc, src, dst string }
+type triple struct{ svc, src, dst, weight string } // weight: the fixed weight the instance asked for ("" = none)
 
 // expected computes the set of (service, prefix, target) the table must hold.
 func (p *pipeline) expected(w *mWorld) map[triple]bool {
@@ -136,7 +139,7 @@ func (p *pipeline) expected(w *mWorld) map[triple]bool {
 						if i := strings.Index(src, "="); i >= 0 { // "<prefix>=<redirect target>"
 							src, dst = src[:i], src[i+1:]
 						}
-						set[triple{in.Name, src, dst}] = true
+						set[triple{in.Name, src, dst, ""}] = true
 					}
 				}
 			}
@@ -158,6 +161,7 @@ func (p *pipeline) expected(w *mWorld) map[triple]bool {
 			hostport := fmt.Sprintf("%s:%d", addr, in.Port)
 			dst := "http://" + hostport + "/"
 			bad := false
+			weight := ""
 			for _, o := range f[1:] {
 				switch {
 				case o == "proto=https":
@@ -165,8 +169,10 @@ func (p *pipeline) expected(w *mWorld) map[triple]bool {
 				case o == "proto=tcp":
 					dst = "tcp://" + hostport
 				case strings.HasPrefix(o, "weight="):
-					if o != "weight=0.5" {
+					if _, err := strconv.ParseFloat(o[len("weight="):], 64); err != nil || strings.Contains(o, "Inf") {
 						bad = true // only used by the odd registrations of C14
+					} else {
+						weight = o[len("weight="):]
 					}
 				}
 			}
@@ -181,7 +187,7 @@ func (p *pipeline) expected(w *mWorld) map[triple]bool {
 			if bad {
 				continue
 			}
-			set[triple{in.Name, src, dst}] = true
+			set[triple{in.Name, src, dst, weight}] = true
 		}
 	}
 	// operator's route commands on top, in key order
@@ -195,7 +201,7 @@ func (p *pipeline) expected(w *mWorld) map[triple]bool {
 			f := strings.Fields(line)
 			switch {
 			case len(f) == 5 && f[1] == "add":
-				set[triple{f[2], f[3], f[4]}] = true
+				set[triple{f[2], f[3], f[4], ""}] = true
 			case len(f) == 3 && f[1] == "del":
 				for tr := range set {
 					if tr.svc == f[2] {
@@ -219,7 +225,11 @@ func actual(tbl route.Table) map[triple]bool {
 	for h, rs := range tbl {
 		for _, r := range rs {
 			for _, tg := range r.Targets {
-				set[triple{tg.Service, h + r.Path, tg.URL.String()}] = true
+				w := ""
+				if tg.FixedWeight > 0 {
+					w = strconv.FormatFloat(tg.FixedWeight, 'f', -1, 64)
+				}
+				set[triple{tg.Service, h + r.Path, tg.URL.String(), w}] = true
 			}
 		}
 	}
@@ -230,12 +240,12 @@ func diff(want, got map[triple]bool) string {
 	var out []string
 	for tr := range want {
 		if !got[tr] {
-			out = append(out, fmt.Sprintf("missing  %s %s -> %s", tr.svc, tr.src, tr.dst))
+			out = append(out, fmt.Sprintf("missing  %s %s -> %s weight %q", tr.svc, tr.src, tr.dst, tr.weight))
 		}
 	}
 	for tr := range got {
 		if !want[tr] {
-			out = append(out, fmt.Sprintf("surplus  %s %s -> %s", tr.svc, tr.src, tr.dst))
+			out = append(out, fmt.Sprintf("surplus  %s %s -> %s weight %q", tr.svc, tr.src, tr.dst, tr.weight))
 		}
 	}
 	sort.Strings(out)
@@ -301,7 +311,7 @@ func (p *pipeline) settleAbsent(gone map[triple]bool, h0 uint64) (string, bool) 
 		var still []string
 		for tr := range actual(route.GetTable()) {
 			if gone[tr] {
-				still = append(still, fmt.Sprintf("stale  %s %s -> %s", tr.svc, tr.src, tr.dst))
+				still = append(still, fmt.Sprintf("stale  %s %s -> %s weight %q", tr.svc, tr.src, tr.dst, tr.weight))
 			}
 		}
 		if len(still) == 0 && sawQuiet {
@@ -333,10 +343,11 @@ func genInstance(t *rapid.T, w *mWorld) *fakeconsul.Instance {
 	for i := 0; i < n; i++ {
 		tg := rapid.SampledFrom(tagChoices).Draw(t, "tag")
 		if tg == "urlprefix-/w weight=0.5" {
-			tg = "urlprefix-/a" // weights are not part of the compared triple; keep routes plain here
+			// the weight an instance asks for is part of what is compared; re-registrations change it
+			tg = "urlprefix-/w weight=" + rapid.SampledFrom([]string{"0.5", "0.25", "0.1"}).Draw(t, "tagweight")
 		}
-		if !seen[tg] {
-			seen[tg] = true
+		if key := strings.Fields(tg)[0]; !seen[key] { // one tag per prefix
+			seen[key] = true
 			in.Tags = append(in.Tags, tg)
 		}
 	}
@@ -358,6 +369,15 @@ func (w *mWorld) ensureNode(fc *fakeconsul.Server, in *fakeconsul.Instance) {
 func TestC01Pipeline(t *testing.T) {
 	p := startPipeline(t)
 	hx.Check(t, hx.Scale(60, 1500), func(t *rapid.T) {
+		runHistory(t, p, false)
+	})
+}
+
+// The same histories are part of C04's check: the fixed weight an instance asks for in its
+// tag (and changes by re-registering) is part of the compared table.
+func TestC04Pipeline(t *testing.T) {
+	p := startPipeline(t)
+	hx.Check(t, hx.Scale(30, 600), func(t *rapid.T) {
 		runHistory(t, p, false)
 	})
 }
@@ -621,3 +641,68 @@ func sortedKeys(m map[string]*fakeconsul.Instance) []string {
 	sort.Strings(ks)
 	return ks
 }
+
+// A Consul KV outage is not a change of the registry: while KV reads fail, the operator's route
+// commands stay applied and the no-route page stays what it was; afterwards both follow new values.
+func kvOutage(t *testing.T) {
+	p := startPipeline(t)
+	hx.Check(t, hx.Scale(2, 12), func(t *rapid.T) {
+		fc := p.fc
+		w := newWorld()
+		h0, k0 := fc.Served()
+		fc.Reset()
+		in := &fakeconsul.Instance{Node: "node1", NodeAddr: "10.0.1.1", ID: "web-1", Name: "web", Addr: "10.5.5.5", Port: 1000, Tags: []string{"urlprefix-/a"}, Checks: []string{"passing"}}
+		w.ensureNode(fc, in)
+		w.inst["node1/web-1"] = in
+		fc.SetInstance(*in)
+		manual := fmt.Sprintf("route add manual-0 /m%d http://10.8.8.0:80/", rapid.IntRange(0, 5).Draw(t, "m"))
+		page := rapid.SampledFrom([]string{"<html>gone</html>", "nothing here", "<h1>404</h1>"}).Draw(t, "page")
+		w.kv["fabio/config"] = manual
+		fc.MutateKV(func(kv map[string]string) { kv["fabio/config"] = manual; kv["fabio/noroute.html"] = page })
+		want := p.expected(w)
+		if d, quiet := p.settle(want, h0, k0); d != "" {
+			if !quiet {
+				t.Fatalf("VERIF-INCONCLUSIVE watchers did not reach the registry's state")
+			}
+			t.Fatalf("before the outage the table is wrong:\n%s", d)
+		}
+		for deadline := time.Now().Add(5 * time.Second); noroute.GetHTML() != page; time.Sleep(5 * time.Millisecond) {
+			if time.Now().After(deadline) {
+				t.Fatalf("VERIF-INCONCLUSIVE the no-route page never arrived")
+			}
+		}
+		outage := time.Duration(rapid.IntRange(1500, 2800).Draw(t, "outage_ms")) * time.Millisecond
+		fc.SetKVFail(true)
+		start := time.Now()
+		for time.Since(start) < outage {
+			if d := diff(want, actual(route.GetTable())); d != "" {
+				t.Fatalf("%v into a Consul KV outage (reads fail with 500, the registry itself is unchanged) the active table lost the operator's commands:\n%s", time.Since(start).Round(time.Millisecond), d)
+			}
+			if got := noroute.GetHTML(); got != page {
+				t.Fatalf("%v into a Consul KV outage the no-route page changed from %q to %q", time.Since(start).Round(time.Millisecond), page, got)
+			}
+			hx.Eval()
+			time.Sleep(25 * time.Millisecond)
+		}
+		fc.SetKVFail(false)
+		// new values after the outage are followed
+		manual2, page2 := "route add manual-9 /m9 http://10.8.8.9:80/", page+"!"
+		w.kv["fabio/config"] = manual2
+		h0, k0 = fc.Served()
+		fc.MutateKV(func(kv map[string]string) { kv["fabio/config"] = manual2; kv["fabio/noroute.html"] = page2 })
+		if d, _ := p.settle(p.expected(w), h0, k0); d != "" {
+			t.Fatalf("after the KV outage the table does not follow the operator's new commands:\n%s", d)
+		}
+		for deadline := time.Now().Add(8 * time.Second); noroute.GetHTML() != page2; time.Sleep(5 * time.Millisecond) {
+			if time.Now().After(deadline) {
+				t.Fatalf("after the KV outage the no-route page does not follow the new value (still %q)", noroute.GetHTML())
+			}
+		}
+		fc.MutateKV(func(kv map[string]string) { delete(kv, "fabio/noroute.html") })
+		hx.NonTrivial(fmt.Sprintf("kvoutage|%v|%s|%s", outage, manual, page))
+		hx.Class("consul-kv-outage")
+	})
+}
+
+func TestC01KVOutage(t *testing.T) { kvOutage(t) }
+func TestC07KVOutage(t *testing.T) { kvOutage(t) }
